@@ -307,9 +307,13 @@ type wrappedReader struct {
 	lastLine    int64
 	accumulated []*Stmt
 	yield       func([]*Stmt, error) bool
+	stopped     bool // the callback returned false; it must not be called again
 }
 
 func (w *wrappedReader) Read(p []byte) (n int, err error) {
+	if w.stopped {
+		return 0, io.EOF
+	}
 	// If we lexed a newline for the first time, we just finished a line, so
 	// we may need to give a callback for the edge cases below not covered
 	// by [Parser.Stmts].
@@ -317,11 +321,13 @@ func (w *wrappedReader) Read(p []byte) (n int, err error) {
 		if w.p.Incomplete() {
 			// Incomplete statement; call back to print "> ".
 			if !w.yield(w.accumulated, w.p.err) {
+				w.stopped = true
 				return 0, io.EOF
 			}
 		} else if len(w.accumulated) == 0 {
 			// Nothing was parsed; call back to print another "$ ".
 			if !w.yield(nil, w.p.err) {
+				w.stopped = true
 				return 0, io.EOF
 			}
 		}
@@ -374,6 +380,10 @@ func (p *Parser) InteractiveSeq(r io.Reader) iter.Seq2[[]*Stmt, error] {
 	return func(yield func([]*Stmt, error) bool) {
 		w := wrappedReader{p: p, rd: r, yield: yield}
 		for stmts, err := range p.StmtsSeq(&w) {
+			if w.stopped {
+				// The callback already returned false from within a read.
+				return
+			}
 			w.accumulated = append(w.accumulated, stmts)
 			if err != nil {
 				if !yield(w.accumulated, err) {
